@@ -4,6 +4,7 @@ work(prop, tier, seed, widx, nworkers) -> result dict (see runner.merge)."""
 from __future__ import annotations
 
 import copy
+import os
 import random
 import time
 
@@ -37,7 +38,7 @@ PROFILES = {
     'C07': gen.profile(p_fail=0.2, p_generic=0.12, p_rec=0.25, p_rec_paths_shape=0.12),
     'C08': gen.profile(p_fail=0.15, p_rec=0.25, p_generic=0.12, p_rec_paths_shape=0.08),
     'C09': gen.profile(p_sw=0.45, p_oneof=0.1, p_rec=0.12, p_share_decider=0.5, p_unnamed_switch=0.4, p_share_lazy=0.4, p_lazy_fail_shape=0.12),
-    'C10': gen.profile(p_oneof=0.45, p_sw=0.1, p_rec=0.1, p_fail=0.25, p_cand_falsy=0.3, p_contain_shape=0.4, p_deep_chain=0.1, p_lazy_fail_shape=0.12),
+    'C10': gen.profile(p_oneof=0.45, p_sw=0.1, p_rec=0.1, p_fail=0.25, p_cand_falsy=0.3, p_contain_shape=0.4, p_deep_chain=0.1, p_lazy_fail_shape=0.12, p_reuse_lazy=0.25, p_share_cand=0.3, p_sibling_oneof_shape=0.1),
     'C11': gen.profile(p_rec=0.5, p_sw=0.1, p_oneof=0.1, p_rec_nested=0.45, p_falsy_ad=0.3),
     'C12': gen.profile(p_retry=0.8, p_fail=0.5, n_max=6),
     'C13': gen.profile(n_max=7),
@@ -83,6 +84,22 @@ class Acc:
         self.counters = {}
         self.tagcount = {}
         self.t0 = time.time()
+        self.n_known = 0
+        self.n_new = 0
+        self._known = None
+
+    def _attributed(self, kind, tags):
+        if self._known is None:
+            import json
+            import os
+            path = os.path.join(os.path.dirname(os.path.dirname(os.path.abspath(__file__))), 'known_findings.json')
+            try:
+                self._known = [k for k in json.load(open(path))['findings'] if k.get('status', 'open') == 'open']
+            except Exception:  # noqa: BLE001
+                self._known = []
+            if os.environ.get('VERIF_NO_KNOWN'):
+                self._known = []
+        return any(self.prop in k['properties'] and k['family'] in tags and kind in k['kinds'] for k in self._known)
 
     def add(self, case, res, nontrivial_feature=True):
         self.evaluations += 1
@@ -95,12 +112,20 @@ class Acc:
         for f in res['findings']:
             self.counters['findings_all_props'] = self.counters.get('findings_all_props', 0) + 1
             if self.prop in f['prop']:
-                if len(self.findings) < 60:
+                tags = sorted(set(case['prog'].get('tags', [])) | set(res.get('dyn_tags', [])))
+                # findings that a known-finding entry accounts for must not use up the room of the others
+                known = self._attributed(f['kind'], tags)
+                room = self.n_known if known else self.n_new
+                if room < 60:
                     self.findings.append({'kind': f['kind'], 'detail': f['detail'], 'prop': f['prop'],
-                                          'tags': sorted(set(case['prog'].get('tags', [])) | set(res.get('dyn_tags', []))),
-                                          'case': case})
+                                          'tags': tags, 'case': case})
+                    if known:
+                        self.n_known += 1
+                    else:
+                        self.n_new += 1
                 else:
-                    self.counters['findings_dropped'] = self.counters.get('findings_dropped', 0) + 1
+                    key = 'findings_dropped_known' if known else 'findings_dropped'
+                    self.counters[key] = self.counters.get(key, 0) + 1
         if len(self.samples) < 2 and st.get('choice_points', 0) >= 2:
             self.samples.append(cases.sample_of(case, res))
 
